@@ -5,4 +5,4 @@ cd "$(dirname "$0")"
 export CARGO_NET_OFFLINE=true
 ( cd driver && cargo +nightly build --release --offline )
 # warm the dependency target dir so that the first check is fast
-python3 engine/build.py all
+python3 -m engine.build all
